@@ -1,13 +1,14 @@
 package main
 
 import (
-	"verifharness/internal/tags"
+	"bytes"
 	"encoding/hex"
 	"reflect"
 	"runtime"
 	"sort"
 	"strings"
 	"time"
+	"verifharness/internal/tags"
 
 	"free5gclib/aper"
 	"free5gclib/ngap"
@@ -56,6 +57,8 @@ func init() {
 		if err != nil {
 			return "err"
 		}
+		// the decoded PDU must not point into the octets it was decoded from (the procedures reuse their receive buffer)
+		retainDetached(func() string { return valTokens(reflect.ValueOf(pdu).Elem()) })
 		return "ok " + valTokens(reflect.ValueOf(pdu).Elem())
 	})
 	registerOp("aperrt", func(a []string) string {
@@ -294,6 +297,49 @@ func aperEncDomain(e *emitter, roundTrip bool) {
 				e.op("ngapenc", strings.Fields(valTokens(v))...)
 			} else {
 				emit("NGAPPDU", v, false)
+			}
+		}
+	}
+	// 1d. an OPEN TYPE whose own content is an exact multiple of 64K octets (the boundary of its fragmentation loop is the
+	// total of the inner encoding, not the length of the string inside): DOWNLINK NAS TRANSPORT with NAS-PDUs of 65533 /
+	// 131068 octets makes the NAS-PDU IE value 65536 / 131072 octets; neighbours on both sides
+	if !roundTrip || e.thorough() {
+		lens := []int{65532, 65533, 65534}
+		if e.thorough() {
+			lens = []int{65529, 65530, 65531, 65532, 65533, 65534, 65535, 131066, 131067, 131068, 131069, 131070}
+		}
+		for _, n := range lens {
+			pdu := ngapType.NGAPPDU{Present: ngapType.NGAPPDUPresentInitiatingMessage}
+			im := &ngapType.InitiatingMessage{}
+			im.ProcedureCode.Value = ngapType.ProcedureCodeDownlinkNASTransport
+			im.Criticality.Value = ngapType.CriticalityPresentIgnore
+			im.Value.Present = ngapType.InitiatingMessagePresentDownlinkNASTransport
+			m := &ngapType.DownlinkNASTransport{}
+			add := func(id int64, f func(ie *ngapType.DownlinkNASTransportIEs)) {
+				ie := ngapType.DownlinkNASTransportIEs{}
+				ie.Id.Value = id
+				ie.Criticality.Value = ngapType.CriticalityPresentReject
+				f(&ie)
+				m.ProtocolIEs.List = append(m.ProtocolIEs.List, ie)
+			}
+			add(ngapType.ProtocolIEIDAMFUENGAPID, func(ie *ngapType.DownlinkNASTransportIEs) {
+				ie.Value.Present = ngapType.DownlinkNASTransportIEsPresentAMFUENGAPID
+				ie.Value.AMFUENGAPID = &ngapType.AMFUENGAPID{Value: 1}
+			})
+			add(ngapType.ProtocolIEIDRANUENGAPID, func(ie *ngapType.DownlinkNASTransportIEs) {
+				ie.Value.Present = ngapType.DownlinkNASTransportIEsPresentRANUENGAPID
+				ie.Value.RANUENGAPID = &ngapType.RANUENGAPID{Value: 1}
+			})
+			add(ngapType.ProtocolIEIDNASPDU, func(ie *ngapType.DownlinkNASTransportIEs) {
+				ie.Value.Present = ngapType.DownlinkNASTransportIEsPresentNASPDU
+				ie.Value.NASPDU = &ngapType.NASPDU{Value: bytes.Repeat([]byte{0x5a}, n)}
+			})
+			im.Value.DownlinkNASTransport = m
+			pdu.InitiatingMessage = im
+			if roundTrip {
+				emit("NGAPPDU", reflect.ValueOf(pdu), false)
+			} else {
+				e.op("ngapenc", strings.Fields(valTokens(reflect.ValueOf(pdu)))...)
 			}
 		}
 	}
